@@ -59,10 +59,13 @@ Inline(P, nodes, i, ov, fuel) ==
                                 ELSE <<n>>
        IN one \o Inline(P, nodes, i + 1, ov, fuel)
 
+\* nesting budget of Inline (generated families nest <= ~20 levels; running out would silently drop content)
+FamFuel == 64
+
 \* a template given as (ext, nodes): a child of `ext` (its nodes are block overrides) or a plain one
 FlatTemplate(P, ext, nodes) ==
-  IF ext = "" THEN Inline(P, nodes, 1, <<>>, 12)
-  ELSE Inline(P, TplNamed(P, ext).a, 1, Overrides(nodes), 12)
+  IF ext = "" THEN Inline(P, nodes, 1, <<>>, FamFuel)
+  ELSE Inline(P, TplNamed(P, ext).a, 1, Overrides(nodes), FamFuel)
 
 Flat(P) ==
   [P EXCEPT !.page = FlatTemplate(P, P.pext, P.page),
@@ -80,7 +83,7 @@ FamilyFree(nodes, i) ==
 FlatIsFamilyFree(P) == LET F == Flat(P) IN
   FamilyFree(F.page, 1) /\ \A c \in 1..Len(F.comps) : FamilyFree(F.comps[c].tpl, 1)
 FlatIsIdempotent(P) == LET F == Flat(P) IN
-  Inline(P, F.page, 1, <<>>, 12) = F.page
+  Inline(P, F.page, 1, <<>>, FamFuel) = F.page
 
 RunFamily(P) == Run(Flat(P))
 =============================================================================
